@@ -3,7 +3,7 @@
 
 use crate::plan::Knobs;
 use raindb::fs::FileSystem;
-use raindb::{BloomFilterPolicy, DbOptions, RainDBError, RainDbIterator, ReadOptions, Snapshot, DB};
+use raindb::{BloomFilterPolicy, DbOptions, RainDBError, RainDbIterator, ReadOptions, Snapshot, WriteOptions, DB};
 use raindb_verif_rt as rt;
 use serde::{Deserialize, Serialize};
 use std::collections::BTreeMap;
@@ -58,6 +58,8 @@ pub fn options(fs: Arc<dyn FileSystem>, k: &Knobs, create_if_missing: bool) -> D
         c.knobs.insert("table_cache_capacity".into(), k.table_cache_cap as i64);
         c.knobs.insert("level_base_bytes".into(), k.level_base_bytes as i64);
         c.knobs.insert("min_allowed_seeks".into(), k.min_allowed_seeks as i64);
+        c.knobs.insert("opt_sync_mode".into(), k.sync_mode as i64);
+        c.knobs.insert("opt_fill_cache_mode".into(), k.fill_cache_mode as i64);
     });
     DbOptions {
         db_path: DB_PATH.to_string(),
@@ -71,6 +73,29 @@ pub fn options(fs: Arc<dyn FileSystem>, k: &Knobs, create_if_missing: bool) -> D
         error_if_exists: false,
         reuse_log_files: k.reuse_log_files,
     }
+}
+
+fn opt_alternate(mode_knob: &str, counter_knob: &str) -> u8 {
+    rt::with_ctx(|c| {
+        let mode = c.knobs.get(mode_knob).copied().unwrap_or(0) as u8;
+        if mode == 2 {
+            let n = c.knobs.entry(counter_knob.to_string()).or_insert(0);
+            *n += 1;
+            if *n % 2 == 0 { 2 } else { 3 }
+        } else {
+            mode
+        }
+    })
+}
+
+/// Write options of the current open (swarm knob `sync_mode`).
+pub fn wopts() -> WriteOptions {
+    WriteOptions { synchronous: matches!(opt_alternate("opt_sync_mode", "opt_sync_counter"), 1 | 2) }
+}
+
+/// `fill_cache` of the current open (swarm knob `fill_cache_mode`).
+pub fn fill_cache() -> bool {
+    matches!(opt_alternate("opt_fill_cache_mode", "opt_fill_counter"), 0 | 2)
 }
 
 /// Outcome of calling into RainDB: a value, or a caught panic (message, location).
@@ -142,7 +167,7 @@ pub enum ScanError {
 
 /// Full forward scan through a fresh iterator.
 pub fn scan_forward(db: &DB, snapshot: Option<Snapshot>) -> Result<Vec<(Vec<u8>, Vec<u8>)>, ScanError> {
-    let mut it = db.new_iterator(ReadOptions { fill_cache: true, snapshot }).map_err(ScanError::Err)?;
+    let mut it = db.new_iterator(ReadOptions { fill_cache: fill_cache(), snapshot }).map_err(ScanError::Err)?;
     let mut out = vec![];
     it.seek_to_first().map_err(ScanError::Err)?;
     while it.is_valid() {
@@ -165,7 +190,7 @@ pub fn scan_forward(db: &DB, snapshot: Option<Snapshot>) -> Result<Vec<(Vec<u8>,
 
 /// Full backward scan through a fresh iterator, returned in ascending order.
 pub fn scan_backward(db: &DB, snapshot: Option<Snapshot>) -> Result<Vec<(Vec<u8>, Vec<u8>)>, ScanError> {
-    let mut it = db.new_iterator(ReadOptions { fill_cache: true, snapshot }).map_err(ScanError::Err)?;
+    let mut it = db.new_iterator(ReadOptions { fill_cache: fill_cache(), snapshot }).map_err(ScanError::Err)?;
     let mut out = vec![];
     it.seek_to_last().map_err(ScanError::Err)?;
     while it.is_valid() {
@@ -187,7 +212,7 @@ pub fn scan_backward(db: &DB, snapshot: Option<Snapshot>) -> Result<Vec<(Vec<u8>
 }
 
 pub fn get(db: &DB, snapshot: Option<Snapshot>, key: &[u8]) -> Result<Option<Vec<u8>>, RainDBError> {
-    match db.get(ReadOptions { fill_cache: true, snapshot }, key) {
+    match db.get(ReadOptions { fill_cache: fill_cache(), snapshot }, key) {
         Ok(v) => Ok(Some(v)),
         Err(RainDBError::KeyNotFound) => Ok(None),
         Err(e) => Err(e),
